@@ -212,30 +212,37 @@ theorem rate_limit_off (reqs : List (Nat × Int)) : ∀ e ∈ RL.trace 0 reqs, e
 theorem lifecycle_shape :
     runBody = runModelled ∧ shutdownBody = shutdownModelled ∧ serveRun = serveRunModelled := by decide +kernel
 
-/-- the parameters of the tree under test: the limiter shares the mutex that `Shutdown` holds iff the names agree -/
+/-- the parameters of the tree under test: the limiter shares the mutex that `Shutdown` holds iff the names agree;
+`Shutdown` leaves `s.stopped` and `Run` honours it (`lifecycle_shape`) -/
 def codeParams (limiterOn handler : Bool) : LC.Params :=
-  ⟨decide (limiterMutex = shutdownMutex), limiterOn, handler⟩
+  ⟨decide (limiterMutex = shutdownMutex), limiterOn, handler, true⟩
 
-/-- **every interleaving** of {the signal arrives, Run publishes the server, Shutdown, a request} ends in one of four
-ways, for every parameter set: (1) clean — `run` returned, the listener is closed, `s.httpServer` is nil, the store was
-closed exactly once, the mutex is free; (2) the signal came before `signal.Notify` was installed and the default
-disposition killed the process (nothing closed); (3) **F26a** — the signal arrived before `Run` had published
-`s.httpServer`: `Shutdown` answered "server is not running", the signal goroutine is gone, the server keeps serving with
-the store open and no further signal is handled; (4) **F26b** — only when the limiter is on and shares `Server.mu`:
-`Shutdown` holds the mutex waiting for a handler that waits for the mutex.
+/-- **every interleaving** of {the signal arrives, Run publishes the server, Shutdown, a request} of the handshake as
+it is in the tree (`p.remembers`) ends in one of four ways, for every parameter set: (1) clean — `run` returned, the
+listener is closed, `s.httpServer` is nil, the store was closed exactly once, the mutex is free; (2) the signal came
+before `signal.Notify` was installed and the default disposition killed the process (nothing closed; outside the code's
+reach); (3) the signal came during start-up, before `Run` had published its listener: `Shutdown` answered "server is
+not running" and left `s.stopped`, `Run` saw it and returned nil, `run` returned — no listener was ever opened, no
+request was served, the mutex is free and the store is **still open** (`Shutdown` closes the store only after stopping a
+listener; the process ends); this outcome is its own disjunct because `clean` requires the store to be closed once;
+(4) **F26b** — only when the limiter is on and shares `Server.mu` (not the case in the tree: `limiterMutex` is
+`s.rateMu`): `Shutdown` holds the mutex waiting for a handler that waits for the mutex.
+The ending of F26a (server keeps serving, nobody listens for signals) is no longer reachable.
 Partial: the statement is about the handshake logic; signal delivery, process exit, the listener and `net/http` are
-outside the model, and (3), (4) are failures of the property as worded. -/
-theorem shutdown_ts_partial (p : LC.Params) (s : LC.St) (hr : LC.Reach p s) (ht : LC.terminal p s = true) :
-    LC.clean s = true ∨ LC.killedEarly s = true ∨ (LC.stuckServing s = true ∧ LC.get LC.sigAfterPublish s = 0) ∨
+outside the model. -/
+theorem shutdown_ts_partial (p : LC.Params) (hrem : p.remembers = true) (s : LC.St) (hr : LC.Reach p s)
+    (ht : LC.terminal p s = true) :
+    LC.clean s = true ∨ LC.killedEarly s = true ∨ LC.stoppedBeforeStart s = true ∨
     (LC.deadlocked s = true ∧ p.sharedMu = true ∧ p.limiterOn = true ∧ p.handler = true) := by
   have hall : ∀ p ∈ LC.allParams, LC.certified p = true := by decide +kernel
-  have hc := hall p (LC.mem_allParams p)
+  have hc := hall p (LC.mem_allParams p hrem)
   simp only [LC.certified, Bool.and_eq_true] at hc
   have hmem := LC.reach_mem p _ hc.1 hr
   have hv := hc.2
   simp only [LC.classifiedOn, List.all_eq_true] at hv
   have := hv s hmem
-  simp only [ht, Bool.not_true, Bool.false_or, LC.verdict, Bool.or_eq_true, Bool.and_eq_true, decide_eq_true_eq] at this
+  simp only [ht, hrem, Bool.not_true, Bool.false_or, Bool.false_and, Bool.and_false, Bool.or_false, Bool.and_true, LC.verdict,
+    Bool.or_eq_true, Bool.and_eq_true] at this
   rcases this with ((h | h) | h) | h
   · exact Or.inl h
   · exact Or.inr (Or.inl h)
@@ -244,32 +251,54 @@ theorem shutdown_ts_partial (p : LC.Params) (s : LC.St) (hr : LC.Reach p s) (ht 
 
 /-- **the good case**: if the signal arrives after `Run` has published the server (and after `signal.Notify`), and
 the limiter is off or has its own mutex or no request is in flight, every interleaving ends clean -/
-theorem shutdown_clean (p : LC.Params) (s : LC.St) (hr : LC.Reach p s) (ht : LC.terminal p s = true)
-    (hsig : LC.get LC.sigAfterPublish s = 1) (hp : (p.sharedMu && p.limiterOn && p.handler) = false) :
-    LC.clean s = true := by
-  rcases shutdown_ts_partial p s hr ht with h | h | h | h
+theorem shutdown_clean (p : LC.Params) (hrem : p.remembers = true) (s : LC.St) (hr : LC.Reach p s)
+    (ht : LC.terminal p s = true) (hsig : LC.get LC.sigAfterPublish s = 1)
+    (hp : (p.sharedMu && p.limiterOn && p.handler) = false) : LC.clean s = true := by
+  rcases shutdown_ts_partial p hrem s hr ht with h | h | h | h
   · exact h
   · simp only [LC.killedEarly, Bool.and_eq_true, decide_eq_true_eq] at h
     omega
-  · omega
+  · simp only [LC.stoppedBeforeStart, Bool.and_eq_true, decide_eq_true_eq] at h
+    omega
   · obtain ⟨_, h1, h2, h3⟩ := h
     simp [h1, h2, h3] at hp
 
+/-- **the tree under test never hangs on a termination signal** (handshake level): with the limiter on its own mutex
+every interleaving ends clean, stopped before start, or killed before `signal.Notify` -/
+theorem shutdown_no_hang (limiterOn handler : Bool) (hmu : limiterMutex ≠ shutdownMutex) (s : LC.St)
+    (hr : LC.Reach (codeParams limiterOn handler) s) (ht : LC.terminal (codeParams limiterOn handler) s = true) :
+    LC.clean s = true ∨ LC.killedEarly s = true ∨ LC.stoppedBeforeStart s = true := by
+  rcases shutdown_ts_partial _ rfl s hr ht with h | h | h | h
+  · exact Or.inl h
+  · exact Or.inr (Or.inl h)
+  · exact Or.inr (Or.inr h)
+  · obtain ⟨_, h1, _, _⟩ := h
+    simp [codeParams, hmu] at h1
+
+example : limiterMutex ≠ shutdownMutex := by decide +kernel
+
 /-- a clean run exists (signal after publication, request served, limiter sharing the mutex) -/
-example : ∃ s, LC.Reach ⟨true, true, true⟩ s ∧ LC.terminal ⟨true, true, true⟩ s = true ∧ LC.clean s = true ∧
+example : ∃ s, LC.Reach ⟨true, true, true, true⟩ s ∧ LC.terminal ⟨true, true, true, true⟩ s = true ∧ LC.clean s = true ∧
     LC.get LC.sigAfterPublish s = 1 := by
   refine ⟨_, LC.exec_reach _ [0, 0, 0, 0, 0, 0, 0, 0, 0, 0, 0, 0, 0, 0, 0, 0, 0, 0, 0, 0, 0] _ _ LC.Reach.init rfl, ?_, ?_, ?_⟩ <;>
     decide +kernel
 
-/-- **F26a is reachable** on the handshake as written: Notify, signal, Shutdown (not running), cancel, close — then
-Run publishes and listens for ever -/
-theorem f26a_witness : ∃ s, LC.Reach ⟨true, false, false⟩ s ∧ LC.terminal ⟨true, false, false⟩ s = true ∧
-    LC.stuckServing s = true := by
+/-- **the schedule of F26a now ends benignly**: Notify, signal, Shutdown (not running, leaves `s.stopped`), cancel,
+close — then Run takes the mutex, sees `s.stopped`, returns nil and `run` returns: the process ends, no listener was
+opened, the store is still open -/
+theorem f26a_witness : ∃ s, LC.Reach ⟨true, false, false, true⟩ s ∧ LC.terminal ⟨true, false, false, true⟩ s = true ∧
+    LC.stoppedBeforeStart s = true ∧ LC.stuckServing s = false := by
+  refine ⟨_, LC.exec_reach _ [1, 1, 1, 1, 0, 0, 0, 0, 0] _ _ LC.Reach.init rfl, ?_, ?_, ?_⟩ <;> decide +kernel
+
+/-- the handshake **before** `s.stopped` (`remembers = false`) was stuck on that schedule: after the failed Shutdown,
+Run published, listened, and nothing could stop it (F26a as it was found) -/
+theorem f26a_old_handshake_stuck : ∃ s, LC.Reach ⟨true, false, false, false⟩ s ∧
+    LC.terminal ⟨true, false, false, false⟩ s = true ∧ LC.stuckServing s = true := by
   refine ⟨_, LC.exec_reach _ [1, 1, 1, 1, 0, 0, 0, 0, 0, 0] _ _ LC.Reach.init rfl, ?_, ?_⟩ <;> decide +kernel
 
 /-- **F26b is reachable** when the limiter shares `Server.mu`: a request is accepted, the signal's `Shutdown` takes the
 mutex and waits for the request, the request waits for the mutex -/
-theorem f26b_witness : ∃ s, LC.Reach ⟨true, true, true⟩ s ∧ LC.terminal ⟨true, true, true⟩ s = true ∧
+theorem f26b_witness : ∃ s, LC.Reach ⟨true, true, true, true⟩ s ∧ LC.terminal ⟨true, true, true, true⟩ s = true ∧
     LC.deadlocked s = true := by
   refine ⟨_, LC.exec_reach _ [0, 0, 0, 0, 0, 0, 1, 0, 0, 0, 0] _ _ LC.Reach.init rfl, ?_, ?_⟩ <;> decide +kernel
 
